@@ -134,7 +134,8 @@ def trial(scratch, scenario, n, r, res, imds):
     lie = bool(n) and len(n) > 2 and n[2] == "lie"
     if lie:
         # a lost write: the k-th write reports success without writing anything (strace does not execute a syscall whose retval is injected)
-        inj = ["-e", "trace=" + S, "-e", "inject=write:retval=%d:when=%d" % (n[3], n[1])]
+        # retval=1: a (possibly short) write that reports one byte written and writes nothing - valid for every request length >= 1
+        inj = ["-e", "trace=" + S, "-e", "inject=write:retval=1:when=%d" % n[1]]
     else:
         inj = ["-e", "trace=" + S] + (["-e", "inject=%s:signal=KILL:when=%d" % (n[0], n[1])] if n else [])
     a = realagent.RealAgent(scratch, tag=tag, vdir=vdir, strace=inj, worker_threads=1)
